@@ -115,15 +115,29 @@ class GetSpans(Contract):
         lo = v.Fn("span.lo", "int", "int")
         hi = v.Fn("span.hi", "int", "int")
         ns = v.Int("nspans")
-        return SymList(ns, lambda k: (lo(k), hi(k)), name="spans")
+        return SymList(ns, lambda k: (lo(k), hi(k)), name="spans"), {"__ghost__": True,
+                                                                      "span_of": v.Fn("span.of", "int", "int")}
 
-    def ensures(self, result, self_, bbox, chunksize):
+    def ghost_final(self, I, S, result):
+        """ghost code: span_of(row) = searchsorted(edges, row, 'right') - 1 (binary search exists)"""
+        import z3 as _z3
+        from pyvc.lib_numpy import np_searchsorted
+        from pyvc.values import Arr
+        edges = S.edges
+        i0, i1 = S.i0, S.i1
+        rows = Arr(_z3.If(i1 >= i0, i1 - i0, _z3.IntVal(0)), lambda k: i0 + k, "int")
+        # precondition of searchsorted (edges sorted) is obliged like any other call
+        ss = np_searchsorted(I, edges, rows, "right")
+        return {"span_of": (lambda x: ss[x - i0] - 1)}
+
+    def ensures(self, result, ghost, self_, bbox, chunksize):
         O, B1, B2 = reader_parts(self_)
         i0, i1, j0, j1 = bbox
         ns, sp_at = seq_view(result)
         lo = lambda k: sp_at(k)[0]
         hi = lambda k: sp_at(k)[1]
-        E = If(ns > 0, hi(ns - 1), i0)
+        E = spans_end(result, i0)
+        span_of = ghost["span_of"]
         nonempty_window = And(i1 - i0 >= 1, j1 - j0 >= 1)
         return {
             "count": ns >= 0,
@@ -131,9 +145,20 @@ class GetSpans(Contract):
             "first-starts-at-i0": Implies(ns > 0, lo(0) == i0),
             "consecutive": forall(0, ns - 1, lambda k: hi(k) == lo(k + 1)),
             "nonempty-spans": forall(0, ns, lambda k: lo(k) < hi(k)),
-            "within-rows": forall(0, ns, lambda k: And(i0 <= lo(k), hi(k) <= i1)),
+            "within-rows": forall(0, ns, lambda k: And(i0 <= lo(k), hi(k) <= E)),
+            "ordered-disjoint": forall2(0, ns, 0, ns, lambda k1, k2: Implies(k1 < k2, hi(k1) <= lo(k2))),
             "covers-all-nonempty-rows": Implies(nonempty_window, And(i0 <= E, E <= i1, O[E] == O[i1])),
+            "every-covered-row-has-its-span": forall(i0, E, lambda x: And(
+                0 <= span_of(x), span_of(x) < ns, lo(span_of(x)) <= x, x < hi(span_of(x)))),
         }
+
+
+def spans_end(spans, i0):
+    """row at which the spans of one get_spans() result end (i0 when there are none)"""
+    ns, sp_at = seq_view(spans)
+    if isinstance(ns, int) and ns == 0:
+        return i0
+    return If(ns > 0, sp_at(ns - 1)[1], i0)
 
 
 # ------------------------------------------------------------------ CSRReader.__call__
@@ -317,3 +342,134 @@ class CSRReaderCall(Contract):
         m, fsrc, frank = td._filter
         drank = ghost["rank"]
         return (lambda t: _z3.If(t < L0, gsrc[t], gsrc[fsrc(t - L0)])), (lambda p: L0 + frank(drank(p)))
+
+
+# ------------------------------------------------------------------ query engines
+def _reader_of(fetcher):
+    """(reader, transposed?) of a task's fetcher: the reader itself or compose(transpose, reader)"""
+    if isinstance(fetcher, Composed):
+        fs = fetcher.funcs
+        if len(fs) == 2 and getattr(fs[0], "qualname", None) == "transpose":
+            return fs[1], True
+        raise Exception(f"unexpected fetcher composition {fs!r}")
+    return fetcher, False
+
+
+def task_segments(tasks):
+    """tasks (python list / SegList) -> list of (count, at(k) -> task tuple)"""
+    out = []
+    if isinstance(tasks, list):
+        for t in tasks:
+            out.append((1, (lambda k, t=t: t)))
+        return out
+    if isinstance(tasks, SymList):
+        return [(tasks.n, tasks.at)]
+    for kind, v in tasks.segs:
+        if kind == "one":
+            out.append((1, (lambda k, v=v: v)))
+        else:
+            out.append((v.n, v.at))
+    return out
+
+
+def emission_counts(I, v, reader, tasks, fill_lower, a, b):
+    """Number of output records that the task list emits for the stored pixel
+    (a, b) at matrix position (a, b) [``up``] and at (b, a) [``low``], derived
+    from the contracts of get_spans (row coverage) and CSRReader.__call__
+    (per-call exactly-once, lemma CSRReaderCall.lemmas): a task with bbox
+    (I0,I1,J0,J1), span (s0,s1), reflect flag emits the pixel directly iff
+    s0 <= a < s1 and J0 <= b < J1, and additionally mirrored iff reflect and
+    a != b and b < I1; a transposing fetcher swaps the two positions.
+    Within one segment (one get_spans result) the spans are disjoint and cover
+    [I0, E), so "some span contains row a" is I0 <= a < E, exactly once."""
+    up, low = 0, 0
+    checks = {}
+    for si, (cnt, at) in enumerate(task_segments(tasks)):
+        k = v.Int(f"task{si}")
+        t = at(k)
+        fetcher, field, bbox, span, reflect, ri = t
+        rd, transposed = _reader_of(fetcher)
+        checks[f"seg{si}.reader"] = rd is reader
+        I0, I1, J0, J1 = bbox
+        # all tasks of a segment share fetcher/bbox/reflect: the tuple built for a
+        # symbolic k may depend on k only through the span
+        seg = None if isinstance(tasks, list) else True
+        E = spans_end(SymList(cnt, lambda kk, at=at: at(kk)[3]), I0) if seg is not None else span[1]
+        lo0 = I0 if seg is not None else span[0]
+        covered = And(cnt > 0, lo0 <= a, a < E) if seg is not None else And(lo0 <= a, a < E)
+        direct = And(covered, J0 <= b, b < J1)
+        mirrored = And(direct, reflect, a != b, b < I1) if reflect is not False else False
+        if not transposed:
+            up = up + If(direct, 1, 0)
+            low = low + If(mirrored, 1, 0)
+        else:
+            low = low + If(direct, 1, 0)
+            up = up + If(mirrored, 1, 0)
+    return up, low, checks
+
+
+class _QueryEngineBase(Contract):
+    props = ["C03"]
+    fill_lower = None
+
+    def configs(self, v):
+        def mk(ri):
+            def f(v):
+                rd, n, O, B1, B2, V = mk_reader(v)
+                slf = v.Obj(self.clsname, M)
+                return dict(self=slf, reader=rd, field="count",
+                            bbox=(v.Int("i0"), v.Int("i1"), v.Int("j0"), v.Int("j1")),
+                            chunksize=v.Int("chunksize"), return_index=ri)
+            return f
+        yield "index=False", mk(False)
+        yield "index=True", mk(True)
+
+    def requires(self, self_, reader, field, bbox, chunksize, return_index):
+        O, B1, B2 = reader_parts(reader)
+        n = L(O) - 1
+        i0, i1, j0, j1 = bbox
+        return [chunksize >= 1, n >= 0, nondecreasing(O), L(O) == n + 1,
+                0 <= i0, i0 <= i1, i1 <= n, 0 <= j0, j0 <= j1, j1 <= n]
+
+    def ensures(self, result, self_, reader, field, bbox, chunksize, return_index):
+        import z3 as _z3
+        from pyvc.engine import Vocab
+        O, B1, B2 = reader_parts(reader)
+        n = L(O) - 1
+        i0, i1, j0, j1 = bbox
+        tasks = self_.attrs["tasks"]
+        v = self._v
+        a, b = v.Int("px.row"), v.Int("px.col")
+        # an arbitrary stored pixel (a, b): its row is non-empty
+        stored = And(0 <= a, a < n, 0 <= b, b < n, O[a] < O[a + 1])
+        if self.fill_lower:
+            stored = And(stored, a <= b)
+        up, low, checks = emission_counts(None, v, reader, tasks, self.fill_lower, a, b)
+        inw = lambda r, c: And(i0 <= r, r < i1, j0 <= c, c < j1)
+        out = {f"task-shape.{k}": c for k, c in checks.items()}
+        if self.fill_lower:
+            out["exactly-once.upper"] = Implies(stored, up + If(a == b, low, 0) == If(inw(a, b), 1, 0))
+            out["exactly-once.lower"] = Implies(And(stored, a != b), low == If(inw(b, a), 1, 0))
+        else:
+            out["exactly-once.stored"] = Implies(stored, up == If(inw(a, b), 1, 0))
+            out["nothing-mirrored"] = Implies(stored, low == 0)
+        return out
+
+
+@contract
+class FillLowerInit(_QueryEngineBase):
+    """C03-L1 (exactly once): for every stored upper-triangle pixel (a,b) and
+    every window, the tasks the real constructor builds emit one record at
+    (a,b) iff (a,b) is in the window and one at (b,a) iff a != b and (b,a) is
+    in the window -- nothing twice, nothing outside; the 'shouldn't happen'
+    branch is unreachable (raises: none allowed)."""
+    target = f"{M}:FillLowerRangeQuery2D.__init__"
+    clsname = "FillLowerRangeQuery2D"
+    fill_lower = True
+
+
+@contract
+class DirectInit(_QueryEngineBase):
+    target = f"{M}:DirectRangeQuery2D.__init__"
+    clsname = "DirectRangeQuery2D"
+    fill_lower = False
